@@ -65,7 +65,9 @@ def judge (j : Json) : R Verdict := do
         if !(declaredKeys.contains p) then spec := spec ++ ["required-but-not-declared:" ++ p]
       -- every declared name the body uses is required by the IR under the spelling the file declares
       for u in used do
-        if !(irParams.contains (Tii.irName u)) then corr := corr ++ ["used-name-not-required:" ++ u]
+        if !(irParams.contains (Tii.irName u)) then
+          corr := corr ++ ["used-name-not-required:" ++ u]
+          spec := spec ++ ["used-but-not-required-by-the-ir:" ++ u]
         if !(declaredKeys.contains (Tii.irName u)) then spec := spec ++ ["used-but-declared-differently:" ++ u]
       if declaredKeys.eraseDups.length != declaredKeys.length then spec := spec ++ ["colliding-keys"]
     match fieldD t "decodes_to_lowered" with
